@@ -16,7 +16,7 @@ EXPLANATION = ("Theorems resolve_valid (accepted => every rule of the data model
 
 
 def run(ctx):
-    n = 100 if ctx.tier == "quick" else 2500
+    n = 400 if ctx.tier == "quick" else 5000
     done = 0
     while done < n and ctx.time_left() > 10:
         models = gen_models(ctx, min(100, n - done), max_demes=5 if ctx.tier == "quick" else 8)
